@@ -13,7 +13,7 @@ from zope.interface.adapter import AdapterRegistry, VerifyingAdapterRegistry
 from zmon import util
 from zmon.util import nm
 
-NAMES = ['', '', 'a', 'b', '\xfc']
+NAMES = ['', '', 'a', 'b', '\xfc', '\x00a']       # (a name may start with NUL: it is still a name, not "unnamed")
 FLAVOURS = {'adapter': AdapterRegistry, 'verifying': VerifyingAdapterRegistry}
 
 
@@ -67,6 +67,10 @@ class Val:
 
     def __repr__(self):
         return 'V%d/%d%s' % (self.serial, self.k, '' if self.ret else 'n')
+
+
+class SuperSubclass(super):
+    pass
 
 
 class FalsyVal(Val):
@@ -440,6 +444,7 @@ def run_c07(ctx, rng, job):
     big = job['tier'] == 'thorough'
     shapes = set()
     provs = w.P + [None]
+    asked7 = []
     for j in range(rng.randint(4, 45 if big else 30)):
         ri = rng.randrange(len(w.regs))
         ar = rng.choice([0, 1, 1, 2, 2, 3])
@@ -469,6 +474,32 @@ def run_c07(ctx, rng, job):
             else:
                 w.unsubscribe(ri, kreq, e[1])
                 ctx.count('unsubscribe_all')
+        if rng.random() < 0.1 and w.classes:
+            # what the looked-up specifications extend changes (a class declaration) ...
+            c = rng.choice(w.classes)
+            sel = rng.sample(w.R, rng.randint(1, min(2, len(w.R))))
+            ctx.op('classImplements', c.__name__, nm(sel))
+            (classImplements if rng.random() < 0.7 else classImplementsOnly)(c, *sel)
+            ctx.count('declaration_changes_between_queries')
+            # the keys asked lately, again: their answers follow the new resolution orders
+            for (li_, lreq_, lprov_) in asked7:
+                exp_ = w.m_subscriptions(li_, lreq_, lprov_)
+                got_ = w.regs[li_].subscriptions(lreq_, lprov_)
+                ctx.count('subscription_queries_repeated_after_a_declaration_change')
+                w.check_subscriptions(got_, exp_, {'registry': li_, 'required': nm(lreq_), 'provided': nm(lprov_),
+                                                   'after': 'declaration change on %s' % c.__name__})
+        if rng.random() < 0.08 and len(w.regs) > 1:
+            # ... or which registries are above one (kept C3-consistent with the mirrored class graph)
+            i = rng.randrange(1, len(w.regs))
+            idx = rng.sample(range(i), min(i, rng.choice([0, 1, 1, 2])))
+            try:
+                w.pyreg[i].__bases__ = tuple(w.pyreg[j] for j in idx) or (object,)
+            except TypeError:
+                idx = None
+            if idx is not None:
+                ctx.op('registry_bases', i, idx)
+                w.regs[i].__bases__ = tuple(w.regs[j] for j in idx)
+                ctx.count('registry_rebasings_between_queries')
         if rng.random() < 0.25:
             # adapters live in the same registries and share the per-interface bookkeeping with the subscribers
             # (reference counts of provided interfaces, extendor lists): register / overwrite / unregister them too
@@ -519,6 +550,8 @@ def run_c07(ctx, rng, job):
                 if not all(isinstance(x, tuple) and len(x) == 2 and isinstance(x[0], str) for x in la):
                     ctx.violation('lookupAll-result-shape', {'registry': li, 'got': repr(la)[:200]})
             ctx.count('subscription_queries')
+            asked7.append((li, lreq, lprov))
+            del asked7[:-10]
             where = {'registry': li, 'required': nm(lreq), 'provided': nm(lprov)}
             seq = w.check_subscriptions(got, exp, where)
             if len(got) != len(set(map(id, got))) or len({e[-1].k for e in seq}) < len(seq):
@@ -554,10 +587,11 @@ def run_c08(ctx, rng, job):
     # super proxies as adapted objects
     class_with_base = [c for c in w.classes if len(c.__mro__) > 2]
     sup = []
-    for c in class_with_base[:2]:
+    for n_, c in enumerate(class_with_base[:2]):
         o = c()
         o.zname = 'sup_' + c.__name__
-        sup.append(super(c, o))
+        # the builtin proxy type and a subclass of it (cooperative-call helpers subclass super)
+        sup.append((SuperSubclass if n_ else super)(c, o))
     for j in range(rng.randint(3, 30 if big else 18)):
         ri = rng.randrange(len(w.regs))
         req, prov, name = w.rand_key(ar=rng.choice([0, 1, 1, 1, 2, 2]))
@@ -574,7 +608,7 @@ def run_c08(ctx, rng, job):
         lreq = tuple(providedBy(o) for o in obs)
         lprov = rng.choice(w.P + [Interface])
         D = object()
-        names_pool = ['', 'a', 'b', '\xfc']
+        names_pool = ['', 'a', 'b', '\xfc', '\x00a']
         unwrap = [o.__self__ if isinstance(o, super) else o for o in obs]
         if any(isinstance(o, super) for o in obs):
             ctx.count('super_proxy_keys')
@@ -1329,6 +1363,16 @@ def run_c06(ctx, rng, job):
             if below and rng.random() < 0.6:
                 # straight to a registry below the re-based one, nothing else asked in between
                 check(tag, only=rng.choice(below))
+        elif r < 0.62 and w.classes:
+            # a declaration change on a class whose specification is a lookup key: the lookup objects are told by the
+            # specification, not by a registry (and must still bring their registry's order up to date)
+            c = rng.choice(w.classes)
+            sel = rng.sample(w.R, rng.randint(1, min(2, len(w.R))))
+            ctx.op('classImplements', c.__name__, nm(sel))
+            (classImplements if rng.random() < 0.7 else classImplementsOnly)(c, *sel)
+            kinds.append('declaration')
+            ctx.count('declaration_changes_between_probes')
+            tag = 'declaration on %s' % c.__name__
         elif r < 0.8:
             ri = rng.randrange(n)
             req, prov, name = w.rand_key(ar=rng.choice([0, 1, 1, 2]))
